@@ -16,7 +16,7 @@ const ADDRS: [u32; 5] = [0x3C6586, 0x4CA2D6, 0x4CA2D7, 0xA1B2C3, 0xE48F01];
 fn level(t: Tier) -> Level {
     Level {
         category: "exploration",
-        rule: if t.thorough() { "tables of 1..5 rows whose key field takes every combination of {blank, low, mid, mid (tie), high, a value inside the same integer as mid (10.2 / 10.9)} x every -o string of length <= 3 over {s,a,A,v,V,N,S,W,E,d,D,c} plus '', 'x', 'sx', given as one -o and as repeated -o; printed through Planes::print with stdout captured; distinct_nontrivial = distinct (key, printed order) outcomes" } else { "tables of 1..4 rows whose key field takes every combination of {blank, low, mid, mid (tie), high, a value inside the same integer as mid (10.2 / 10.9)} x every -o string of length <= 2 over {s,a,A,v,V,N,S,W,E,d,D,c} plus '', 'x', 'sx', given as one -o and as repeated -o; printed through Planes::print with stdout captured; distinct_nontrivial = distinct (key, printed order) outcomes" },
+        rule: if t.thorough() { "tables of 1..5 rows whose key field takes every combination of {blank, low, mid, mid (tie), high, a value inside the same integer as mid (10.2 / 10.9)} x every -o string of length <= 3 over {s,a,A,v,V,N,S,W,E,d,D,c} plus '', 'x', 'sx', given as one -o and as repeated -o (plus all three-letter strings x y x); printed through Planes::print with stdout captured, consecutive tables using different address sets; plus three 40-frame streams drawn after every frame whose every refresh must list exactly the table of that moment; distinct_nontrivial = distinct (key, printed order) outcomes" } else { "tables of 1..4 rows whose key field takes every combination of {blank, low, mid, mid (tie), high, a value inside the same integer as mid (10.2 / 10.9)} x every -o string of length <= 2 over {s,a,A,v,V,N,S,W,E,d,D,c} plus '', 'x', 'sx', given as one -o and as repeated -o (plus all three-letter strings x y x); printed through Planes::print with stdout captured, consecutive tables using different address sets; plus three 40-frame streams drawn after every frame whose every refresh must list exactly the table of that moment; distinct_nontrivial = distinct (key, printed order) outcomes" },
         assumptions: vec![
             "oracle: the printed address column is a permutation of the key set; the last recognised key letter is monotone down the table over the rows where it is known (s, a ascending and A descending as stated; v/V, N/S, W/E, d/D, c in either direction, as the direction is not stated); no recognised key => ascending address".into(),
             "'C' is not in the statement's key list and is not used".into(),
@@ -29,6 +29,7 @@ fn gate(p: &Partial, t: Tier) -> Result<(), String> {
     super::need(p, "table-printed", 100_000)?;
     super::need(p, "monotone-checked", 50_000)?;
     super::need(p, "address-order-checked", 1000)?;
+    super::need(p, "refresh-lists-table", 100)?;
     Ok(())
 }
 
@@ -133,7 +134,10 @@ fn o_strings(maxlen: usize) -> Vec<String> {
 fn build_table(ostr: &str, n: usize, combo: usize) -> Vec<Snap> {
     let letters: Vec<char> = ostr.chars().filter(|c| KEYS.contains(c)).collect();
     let last = letters.last().copied();
-    let mut rows: Vec<Snap> = ADDRS.iter().take(n).map(|a| base_row(*a)).collect();
+    // consecutive tables use different address sets of the same size (anything remembered from the
+    // previous refresh must not leak into this one)
+    let shift = if combo % 2 == 1 { 0x000100 } else { 0 };
+    let mut rows: Vec<Snap> = ADDRS.iter().take(n).map(|a| base_row(*a + shift)).collect();
     // earlier letters get a fixed pattern in their own fields
     for (li, l) in letters.iter().enumerate() {
         if Some(*l) == last && li + 1 == letters.len() {
@@ -156,7 +160,33 @@ fn build_table(ostr: &str, n: usize, combo: usize) -> Vec<Snap> {
     rows
 }
 
+thread_local! {
+    /// the table printed just before on this thread (ostr, repeated, n, combo)
+    static LAST: std::cell::RefCell<Option<(String, bool, usize, usize)>> = const { std::cell::RefCell::new(None) };
+}
+
+fn print_addresses(ostr: &str, repeated: bool, n: usize, combo: usize) -> (Vec<u32>, usize) {
+    let rows = build_table(ostr, n, combo);
+    let mut argv: Vec<String> = vec!["squitterator".into(), "-i".into(), "".into()];
+    if repeated && ostr.chars().count() > 1 {
+        for c in ostr.chars() {
+            argv.push("-o".into());
+            argv.push(c.to_string());
+        }
+    } else {
+        argv.push("-o".into());
+        argv.push(ostr.to_string());
+    }
+    let args = Args::try_parse_from(&argv).expect("args");
+    let flags = DisplayFlags::from_arg_str("");
+    let planes = Planes { aircrafts: restore(&rows) };
+    let ((), out) = capture_stdout(|| planes.print(&args, &flags));
+    let txt = String::from_utf8_lossy(&out);
+    (txt.lines().filter_map(|l| u32::from_str_radix(l.get(0..6)?, 16).ok()).collect(), txt.lines().count())
+}
+
 fn check_table(ctx: &mut Ctx, ostr: &str, repeated: bool, n: usize, combo: usize) {
+    let prev = LAST.with(|l| l.replace(Some((ostr.to_string(), repeated, n, combo))));
     let rows = build_table(ostr, n, combo);
     let mut argv: Vec<String> = vec!["squitterator".into(), "-i".into(), "".into()];
     if repeated && ostr.chars().count() > 1 {
@@ -177,7 +207,7 @@ fn check_table(ctx: &mut Ctx, ostr: &str, repeated: bool, n: usize, combo: usize
     let txt = String::from_utf8_lossy(&out);
     let printed: Vec<u32> = txt.lines().filter_map(|l| u32::from_str_radix(l.get(0..6)?, 16).ok()).collect();
     let key = format!("-o {ostr:?}{} n={n} combo={combo}", if repeated { " (repeated)" } else { "" });
-    let case = || json!({"o": ostr, "repeated": repeated, "n": n, "combo": combo});
+    let case = || json!({"o": ostr, "repeated": repeated, "n": n, "combo": combo, "prev": prev.as_ref().map(|p| json!({"o": p.0, "repeated": p.1, "n": p.2, "combo": p.3}))});
     // permutation
     let mut sorted = printed.clone();
     sorted.sort();
@@ -214,10 +244,64 @@ fn check_table(ctx: &mut Ctx, ostr: &str, repeated: bool, n: usize, combo: usize
     }
 }
 
+/// every refresh of a continuous run lists exactly the aircraft that are in the table at that moment:
+/// a 40-frame stream of 9 aircraft with -d 0 (each sweep empties the table) drawn after every frame
+fn refresh_by_refresh(ctx: &mut Ctx, opts: &[&str]) {
+    use crate::frames;
+    use crate::run::{Cfg, join_lines, run_file};
+    let mut lines: Vec<Vec<u8>> = vec![];
+    for k in 0..40u32 {
+        let a = 0x4CA200 + ((k * 7) % 9) * 0x101;
+        lines.push(if k % 3 == 0 { frames::df11(5, a, 0) } else if k % 3 == 1 { frames::df5(a, frames::id13_for_squawk(1000 + (k % 7) * 111)) } else { frames::df4(a, frames::ac13_for_alt(1000 * (k as i32 % 30))) }.hex().into_bytes());
+    }
+    let mut draw: Vec<&str> = opts.to_vec();
+    draw.extend(["-i", "", "--update=-1"]);
+    let cfg_draw = Cfg::new(&draw);
+    let cfg_quiet = Cfg::new(opts);
+    let t = crate::snap::new_table();
+    let (o, out) = capture_stdout(|| run_file(&cfg_draw, &join_lines(&lines), &t));
+    let blocks = crate::engine::cli::blocks(&out);
+    let refreshes: Vec<&String> = blocks.iter().skip(2).collect();
+    ctx.eval();
+    let key = format!("opts {opts:?}");
+    let case = || json!({"refresh": true, "opts": opts});
+    if !o.is_ok() || refreshes.len() != lines.len() {
+        ctx.violation("C15/refresh-count", &key, || format!("{key}: {} refreshes for {} frames ({})", refreshes.len(), lines.len(), o.label()), case);
+        return;
+    }
+    for k in 1..=lines.len() {
+        let tq = crate::snap::new_table();
+        let _ = run_file(&cfg_quiet, &join_lines(&lines[..k]), &tq);
+        let mut want: Vec<u32> = crate::snap::snapshot(&tq).iter().map(|r| r.key).collect();
+        want.sort();
+        let mut got: Vec<u32> = refreshes[k - 1].lines().filter_map(|l| u32::from_str_radix(l.get(0..6)?, 16).ok()).collect();
+        got.sort();
+        ctx.count("refresh-lists-table");
+        ctx.outcome(&("refresh", want.len()));
+        if got != want {
+            ctx.violation("C15/refresh-vs-table", &format!("{key} frame {k}"), || format!("{key}: refresh {k} lists {got:X?}, the table holds {want:X?}"), case);
+            return;
+        }
+    }
+}
+
 fn run(ctx: &mut Ctx) {
     let thorough = ctx.tier.thorough();
     let maxn = if thorough { 5 } else { 4 };
-    let os = o_strings(if thorough { 3 } else { 2 });
+    let mut os = o_strings(if thorough { 3 } else { 2 });
+    if !thorough {
+        // three-letter strings that repeat their first letter (x y x): the last letter still decides
+        for x in KEYS {
+            for y in KEYS {
+                os.push([x, y, x].iter().collect());
+            }
+        }
+    }
+    if ctx.part == 0 {
+        for opts in [&["-d", "0", "-o", "s"][..], &["-d", "0", "-o", "A", "-U"][..], &["-d", "60", "-o", "sA"][..]] {
+            refresh_by_refresh(ctx, opts);
+        }
+    }
     let mut job = 0u64;
     for ostr in &os {
         for repeated in [false, true] {
@@ -245,6 +329,18 @@ fn run(ctx: &mut Ctx) {
 }
 
 fn replay(ctx: &mut Ctx, case: &Value) {
+    if case.get("refresh").is_some() {
+        let opts: Vec<String> = case.get("opts").and_then(|c| c.as_array()).map(|a| a.iter().filter_map(|x| x.as_str().map(String::from)).collect()).unwrap_or_default();
+        let o: Vec<&str> = opts.iter().map(|s| s.as_str()).collect();
+        refresh_by_refresh(ctx, &o);
+        return;
+    }
+    if let Some(p) = case.get("prev").filter(|p| !p.is_null()) {
+        // the table that was printed just before on the same thread
+        let po = p.get("o").and_then(|x| x.as_str()).unwrap_or("").to_string();
+        let (a, _) = print_addresses(&po, p.get("repeated").and_then(|x| x.as_bool()).unwrap_or(false), p.get("n").and_then(|x| x.as_u64()).unwrap_or(1) as usize, p.get("combo").and_then(|x| x.as_u64()).unwrap_or(0) as usize);
+        crate::run::say(&format!("printed just before on the same thread: -o {po:?} -> {a:X?}"));
+    }
     let o = case.get("o").and_then(|x| x.as_str()).unwrap_or("").to_string();
     let rep = case.get("repeated").and_then(|x| x.as_bool()).unwrap_or(false);
     let n = case.get("n").and_then(|x| x.as_u64()).unwrap_or(1) as usize;
